@@ -28,6 +28,7 @@ func treeSpacesMode(r *explore.Run, gramBase int, editMode string, body func(c *
 	editSpaceMode(r, 1, editMode, wrap)
 	corpusEditSpace(r, wrap)
 	byteTreeSpace(r, wrap)
+	everyByteSpace(r, wrap)
 }
 
 func outcomeTree(c *explore.Ctx, e *Entry, s string, res ParseResult) {
@@ -151,5 +152,32 @@ func byteTreeSpace(r *explore.Run, body func(c *explore.Ctx, e *Entry, s string)
 		for _, e := range ents {
 			body(c, e, s)
 		}
+	})
+}
+
+// byteContexts place one arbitrary byte at the start, between tokens, inside a token and at the end of a valid input.
+var byteContexts = []struct{ entry, pre, post string }{
+	{"ParseExpr", "", "1 + a"}, {"ParseExpr", "1 +", "a"}, {"ParseExpr", "1 + a", ""}, {"ParseExpr", "f(a", "b)"},
+	{"ParseStatement", "", "SELECT a FROM t"}, {"ParseStatement", "SELECT a", "FROM t"}, {"ParseStatement", "SELECT a FROM t", ""},
+	{"ParseStatement", "CREATE TABLE t (a INT64) PRIMARY KEY (a)", ""}, {"ParseStatement", "DELETE", "FROM t WHERE true"},
+	{"ParseStatements", "SELECT 1;", "SELECT 2"}, {"ParseType", "ARRAY<", "INT64>"}, {"ParseQuery", "SELECT 1 FROM t.", "a"},
+}
+
+func everyByteSpace(r *explore.Run, body func(c *explore.Ctx, e *Entry, s string)) {
+	r.Explore(explore.Options{Space: "S1c/every-byte-in-valid-input", MaxDev: -1, SplitLen: 1,
+		Bound: fmt.Sprintf("each of the 256 byte values (and each followed by a blank) at %d places of valid inputs", len(byteContexts))}, func(c *explore.Ctx) {
+		b := c.ChooseFree(256)
+		ctx := byteContexts[c.ChooseFree(len(byteContexts))]
+		mid := string([]byte{byte(b)})
+		switch c.ChooseFree(3) {
+		case 1:
+			mid = " " + mid + " "
+		case 2:
+			mid = mid + mid
+		}
+		s := ctx.pre + mid + ctx.post
+		c.Input(s)
+		c.Sample(fmt.Sprintf("%q", s))
+		body(c, EntryByName(ctx.entry), s)
 	})
 }
